@@ -430,42 +430,56 @@ impl Format {
 
         let epoch = match day_of_year {
             Some(days) => {
-                // Parse the elapsed time in the given day
-                let elapsed = (decomposed[3] as i64) * Unit::Hour
-                    + (decomposed[4] as i64) * Unit::Minute
-                    + (decomposed[5] as i64) * Unit::Second
-                    + (decomposed[6] as i64) * Unit::Nanosecond;
                 // The day of year counts from 1 to the length of that year (a NaN fails the test).
                 let year = decomposed[0];
-                let days_in_year = if is_gregorian_valid(year, 2, 29, 0, 0, 0, 0) {
-                    366.0
-                } else {
-                    365.0
-                };
+                let leap_year = is_gregorian_valid(year, 2, 29, 0, 0, 0, 0);
+                let days_in_year = if leap_year { 366.0 } else { 365.0 };
                 if !(days >= 1.0 && days < days_in_year + 1.0) {
                     return Err(HifitimeError::InvalidGregorianDate);
                 }
-                // The time of day must be valid, and so must the month and the day when they are given as well.
-                let (month, day) = if decomposed[1] == 0 && decomposed[2] == 0 {
-                    (1, 1)
-                } else {
-                    (decomposed[1], decomposed[2])
-                };
-                if !is_gregorian_valid(
+                // The month and the day of the month which that day of the year is.
+                let whole_days = days as u16;
+                let mut month = 1_u8;
+                let mut day = whole_days;
+                loop {
+                    let days_in_month = match month {
+                        4 | 6 | 9 | 11 => 30,
+                        2 if leap_year => 29,
+                        2 => 28,
+                        _ => 31,
+                    };
+                    if day <= days_in_month {
+                        break;
+                    }
+                    day -= days_in_month;
+                    month += 1;
+                }
+                // A month or a day of the month that the format asks for as well must name that same date.
+                for item in self.items.iter().take(self.num_items).flatten() {
+                    let agrees = match item.token {
+                        Token::Month | Token::MonthName | Token::MonthNameShort => {
+                            decomposed[1] == i32::from(month)
+                        }
+                        Token::Day => decomposed[2] == i32::from(day),
+                        _ => true,
+                    };
+                    if !agrees {
+                        return Err(HifitimeError::InvalidGregorianDate);
+                    }
+                }
+                // The time of day is read on that one date, exactly as it is without a day of year (so a second 60
+                // needs a leap second on that date and is counted as everywhere else, and the weekday checked below
+                // is the one of that date); a fractional day of year adds its fraction of a day.
+                Epoch::maybe_from_gregorian(
                     year,
-                    month.try_into().unwrap(),
-                    day.try_into().unwrap(),
+                    month,
+                    day as u8,
                     decomposed[3].try_into().unwrap(),
                     decomposed[4].try_into().unwrap(),
                     decomposed[5].try_into().unwrap(),
                     decomposed[6].try_into().unwrap(),
-                ) {
-                    return Err(HifitimeError::InvalidGregorianDate);
-                }
-                // Same as `Epoch::from_day_of_year`, but an unrepresentable year is an error, not a panic.
-                Epoch::maybe_from_gregorian(decomposed[0], 1, 1, 0, 0, 0, 0, ts)?
-                    + (days - 1.0) * Unit::Day
-                    + elapsed
+                    ts,
+                )? + (days - f64::from(whole_days)) * Unit::Day
             }
             None => Epoch::maybe_from_gregorian(
                 decomposed[0],
